@@ -273,3 +273,14 @@ Example C11_model_sign_verify_p256 :
   | _ => False
   end.
 Proof. vm_compute. reflexivity. Qed.
+
+(* the hypotheses of C11_concrete_inverse are satisfiable: the textbook curve y^2 = x^3 + x + 6
+   over F_11 (p = 3 mod 4) with the base point (2,7) of prime order 13 *)
+Definition toy_curve : curve :=
+  mkCurve (BigZ.of_Z 11) (BigZ.of_Z 1) (BigZ.of_Z 6) (BigZ.of_Z 2) (BigZ.of_Z 7) (BigZ.of_Z 13).
+Example C11_concrete_inverse_nonvacuous :
+  is_true (prime (Z.to_nat (curve_n toy_curve))) /\ 2 < curve_n toy_curve /\
+  (5 * eo_inv (ops_of toy_curve) 5) mod curve_n toy_curve = 1 /\
+  is_inf (smul toy_curve 13 (base toy_curve)) = true /\
+  is_true (prime (Z.to_nat (curve_p toy_curve))) /\ curve_p toy_curve mod 4 = 3.
+Proof. vm_compute. repeat split; reflexivity. Qed.
